@@ -110,7 +110,12 @@ impl<'a> R<'a> {
                 if self.rng.chance(1, 5) {
                     // white space that xml:id normalisation must NOT touch: TAB / LF / CR (they can only
                     // come from character references) and the Unicode spaces (seed C02e)
-                    let odd = *self.rng.pick(&["\t", "\n", "\r", "\u{a0}", "\u{2003}", "\u{3000}", "\u{85}", "\u{2028}"]);
+                    // (texts that will be encoded as ISO-8859-1 / windows-1252 keep to their repertoire)
+                    let odd = if self.cfg.latin1 {
+                        *self.rng.pick(&["\t", "\n", "\r", "\u{a0}"])
+                    } else {
+                        *self.rng.pick(&["\t", "\n", "\r", "\u{a0}", "\u{2003}", "\u{3000}", "\u{85}", "\u{2028}"])
+                    };
                     self.feat("xml-id-odd-space");
                     match self.rng.below(4) {
                         0 => format!("{}i{}", odd, self.id_counter),
